@@ -19,6 +19,7 @@ from typing import Optional
 
 import typer
 from rich.console import Console
+from rich.markup import escape
 
 from pyqasm import load
 from pyqasm.exceptions import QasmParsingError, UnrollError, ValidationError
@@ -117,7 +118,10 @@ def validate_qasm(src_paths: list[str], skip_files: Optional[list[str]] = None) 
                 .removesuffix("-error")
             )
             # pylint: disable-next=anomalous-backslash-in-string
-            console.print(f"{file}: [red]error:[/red] {err} [yellow]\[{category}][/yellow]")
+            console.print(
+                f"{escape(file)}: [red]error:[/red] {escape(str(err))} "
+                f"[yellow]\[{category}][/yellow]"
+            )
         num_failed = len(failed_files)
         s1 = "" if num_failed == 1 else "s"
         console.print(
